@@ -71,6 +71,14 @@ def checkRun (l : Line) (blocks : Bool) : Verdict := Id.run do
       return .specDiff s!"step {k}: the devices received {d} clocks (not a positive number of machine cycles)"
     if cur.cyc != 0 && cur.cyc != 5 then
       return .specDiff s!"step {k}: {cur.cyc} machine cycles left pending after the step"
+    -- a dispatch is visible in the outputs: IME is off and PC sits on a vector (0x0000 for a cancelled dispatch) without
+    -- having walked there through the NOP sled below it; the programs contain no RST / JP / CALL to the vector page and
+    -- run from work RAM.  (IME alone does not show it: RETI followed at once by the next dispatch leaves IME off -> off.)
+    let dispatched := cur.ime == 1 && [0x00, 0x40, 0x48, 0x50, 0x58, 0x60].contains cur.ip && !(cur.ip != 0 && prev.ip + 1 == cur.ip)
+    if dispatched && cur.cyc != 5 then
+      return .specDiff s!"step {k}: interrupt dispatch to pc={cur.ip} charged {cur.cyc} machine cycles, not 5"
+    if !dispatched && cur.cyc == 5 then
+      return .specDiff s!"step {k}: five machine cycles pending without a dispatch (pc={cur.ip})"
     if prev.run != 0 then
       if d != 4 then return .specDiff s!"step {k}: suspended step delivered {d} clocks, expected 4"
       nontrivial := true
